@@ -71,4 +71,10 @@ def traces():
         evs += [dict(ck, fault={"kind": "enospc", "at": at, "sticky": at == 2}), ck]
     evs += [dict(ck, sink="unseekable", fault={"kind": "crash", "at": 40, "torn": 3}), dict(box, op="add_textbox", slide=0, text="after crash"), ck, {"op": "restart"}]
     out.append(T("faults-in-creators-and-saves", [{"deck": "default"}], evs))
+    # nothing is read lazily: the source file is clobbered after open; saving onto the source path works
+    for how in ("garbage", "truncate", "delete"):
+        out.append(T("source-clobbered-%s" % how, [{"deck": "f-shp-picture.pptx", "form": "path_keep"}],
+                     [{"op": "observe"}, dict(ck, sink="samepath"), {"op": "clobber_source", "how": how}, {"op": "add_slide", "layout": 0},
+                      dict(box, op="add_textbox", slide=0, text="after"), ck, dict(ck, sink="samepath"), {"op": "restart", "form": "path_keep"},
+                      dict(ck, sink="samepath"), {"op": "restart"}]))
     return out
